@@ -362,8 +362,10 @@ Proof.
       { destruct (ctgt x) as [|m r] eqn:Em; [reflexivity|exfalso].
         apply (single_bot_closed bot top bot' top' x m W Pa Pb Cl). rewrite Em. left. reflexivity. }
       apply Step.
-      * rewrite degs_single. cbn. destruct (cc_deg x); [f_equal; lia|reflexivity].
-      * rewrite euls_single. unfold arcs_of, omap_sub. cbn. rewrite Hx. cbn. destruct (cc_euler x); cbn; [f_equal; lia|reflexivity].
+      * rewrite degs_single. change (degs []) with (Some 0%Z). rewrite oadd_0_r. reflexivity.
+      * rewrite euls_single. change (euls []) with (Some 0%Z). rewrite oadd_0_r.
+        unfold arcs_of, omap_sub. cbn [map sum_nat fold_right]. rewrite Hx. cbn.
+        destruct (cc_euler x); cbn; [f_equal; lia|reflexivity].
       * unfold flat. cbn [flat_map]. rewrite app_nil_r. apply Permutation_refl.
     + destruct (is_nil gb) eqn:Ngb.
       * destruct gb; [|discriminate]. destruct gt as [|x [|y gt]]; try discriminate.
@@ -375,16 +377,18 @@ Proof.
           apply (single_top_closed top m W). eapply flat_in; [|rewrite Em; left; reflexivity].
           eapply Permutation_in; [apply Permutation_sym; exact Pb|]. apply in_or_app. right. left. reflexivity. }
         apply Step.
-        -- rewrite degs_single. cbn. destruct (cc_deg x); reflexivity.
-        -- rewrite euls_single. unfold arcs_of, omap_sub. cbn. destruct (cc_euler x); cbn; [f_equal; lia|reflexivity].
+        -- rewrite degs_single. change (degs []) with (Some 0%Z). rewrite oadd_0_l. reflexivity.
+        -- rewrite euls_single. change (euls []) with (Some 0%Z). rewrite oadd_0_l.
+           unfold arcs_of, omap_sub. cbn. destruct (cc_euler x); cbn; [f_equal; lia|reflexivity].
         -- unfold flat. cbn [flat_map]. rewrite Hx. apply Permutation_refl.
       * destruct (stack_comps gb gt) as [c|] eqn:Ec; [|discriminate].
         assert (Hbal : arcs_of ctgt gb = arcs_of csrc gt).
-        { rewrite <- !euler_num_flat. eapply group_arcs_balanced; eauto. }
-        destruct (group_deg gb gt c Ec) as (Hd & He & Pc); auto.
-        { apply (flat_sub csrc bot bot' gb Pa (wf_src _ _ W)). }
+        { rewrite <- !euler_num_flat. exact (group_arcs_balanced bot top bot' top' gb gt W Pa Pb Cl). }
+        assert (Hti : forall t, In t gt -> tng_inv (csrc t)).
         { intros t Ht. apply (flat_inv_in csrc top); [apply (wf_mid_t _ _ W)|].
           eapply Permutation_in; [apply Permutation_sym; exact Pb|]. apply in_or_app. right. exact Ht. }
+        destruct (group_deg gb gt c Ec (proj2 (flat_sub csrc bot bot' gb Pa (wf_src _ _ W))) Hti Hbal) as (Hd & He & Pc).
+        apply Step; assumption.
 Qed.
 
 (* ---------- Cob::stack ---------- *)
@@ -407,7 +411,7 @@ Proof.
       { destruct (flat ctgt a) as [|m r] eqn:Em; [reflexivity|exfalso].
         destruct (wf_match_bt _ _ W m) as (m' & [] & _). rewrite Em. left. reflexivity. }
       change (cob_deg []) with (Some 0%Z). change (cob_euler []) with (Some 0%Z). rewrite Ha. unfold omap_sub. cbn.
-      split; [destruct (cob_deg a); [f_equal; lia|reflexivity]|]. split; [destruct (cob_euler a); cbn; [f_equal; lia|reflexivity]|].
+      rewrite !oadd_0_r. split; [reflexivity|]. split; [destruct (cob_euler a); cbn; [f_equal; lia|reflexivity]|].
       apply Permutation_refl.
     + destruct (stack_loop (length a + length b) a b []) as [[out|]|] eqn:El; try discriminate. intros Es.
       destruct (stack_loop_deg _ _ _ _ _ W El) as (D & Eu & P).
